@@ -203,7 +203,12 @@ def oracle(tier, seed):
                     syms["Y1"] = (0.02 if stage == "after-user-override" else 0.05) if (override and sps[0].is_surface) else \
                         (chemistrydata.user_photon_yield.get(sps[0].name, 0.0) if sps[0].is_surface else 0.0)
                     want = eval_term(G.expected(law, sps[0].alias), cond, syms)
-                    have = eval_c(text, cond)
+                    try:
+                        have = eval_c(text, cond)
+                    except ZeroDivisionError:
+                        # the model formula is finite at this valuation: a division by zero in the emitted text is inf / nan in C
+                        V(label, f"value: rate text {text[:160]!r} divides by zero, model formula = {want!r}", stage)
+                        break
                 except (ZeroDivisionError, OverflowError):
                     continue
                 except Exception as e:
